@@ -590,10 +590,22 @@ impl<'r> Ctx<'r> {
                 (format!("{} <- {}", v.name, e), x)
             }
             5 if allow_let => {
-                let name = if !self.globals.is_empty() && self.rng.below(4) == 0 && !self.in_function {
-                    // shadow a global inside this scope (only if not already local here)
-                    let g = self.rng.pick(&self.globals).name.clone();
-                    if self.protected.contains(&g) || self.scopes.last().map(|s| s.iter().any(|v| v.name == g)).unwrap_or(true) { self.fresh("l") } else { g }
+                // shadowing: re-declare a name that is visible from an enclosing scope of this frame (a local of an
+                // outer block, a parameter) or a global — but never a live loop counter, `this`, or a name already
+                // declared in this very scope
+                let mut candidates: Vec<String> = Vec::new();
+                if self.scopes.len() >= 2 {
+                    for scope in &self.scopes[..self.scopes.len() - 1] {
+                        for v in scope { candidates.push(v.name.clone()); }
+                    }
+                }
+                if !self.in_function {
+                    for v in &self.globals { candidates.push(v.name.clone()); }
+                }
+                let here: Vec<String> = self.scopes.last().map(|s| s.iter().map(|v| v.name.clone()).collect()).unwrap_or_default();
+                candidates.retain(|n| n != "this" && !self.protected.contains(n) && !here.contains(n));
+                let name = if !candidates.is_empty() && !self.scopes.is_empty() && self.rng.below(3) == 0 {
+                    self.rng.pick(&candidates).clone()
                 } else {
                     self.fresh("l")
                 };
@@ -630,6 +642,11 @@ impl<'r> Ctx<'r> {
                 let (e, x) = self.expr(&f.kind, depth);
                 (format!("{}.{} <- {}", o.name, f.name, e), x)
             }
+            9 if self.cfg.f_blocks && depth > 0 => {
+                // a nested block: its own scope inside the enclosing one
+                let n = 1 + self.rng.usize_below(3);
+                self.block_body(n, depth - 1)
+            }
             8 if self.cfg.f_conditionals => {
                 let (c, x) = self.bool_expr(depth);
                 let (a, y) = self.print_expr(depth);
@@ -645,6 +662,39 @@ impl<'r> Ctx<'r> {
                 (e, x)
             }
         }
+    }
+
+    /// Nested blocks that re-declare the same few names at every level and read/assign them while all
+    /// levels are open — the shape in which a compiler keyed by (scope, name) must pick the innermost.
+    fn shadow_stack(&mut self, levels: u32) -> E {
+        let names: Vec<String> = (0..(2 + self.rng.usize_below(2))).map(|_| self.fresh("s")).collect();
+        self.shadow_level(&names, levels, true)
+    }
+
+    fn shadow_level(&mut self, names: &[String], levels: u32, outermost: bool) -> E {
+        self.scopes.push(Vec::new());
+        let mut parts: Vec<String> = Vec::new();
+        let mut allocs = Some(0);
+        for n in names {
+            if outermost || self.rng.below(3) != 0 {
+                let (e, x) = self.int_expr(1);
+                allocs = add(allocs, x);
+                parts.push(format!("let {} = {}", n, e));
+                self.scopes.last_mut().unwrap().push(Var { name: n.clone(), kind: Kind::Int });
+            }
+        }
+        let fmt = format!("{}\\n", names.iter().map(|_| "~").collect::<Vec<_>>().join(" "));
+        parts.push(format!("print(\"{}\", {})", fmt, names.join(", ")));
+        let target = self.rng.pick(names).clone();
+        parts.push(format!("{} <- ({} + 1)", target, target));
+        if levels > 1 {
+            let (inner, x) = self.shadow_level(names, levels - 1, false);
+            allocs = add(allocs, x);
+            parts.push(inner);
+        }
+        parts.push(format!("print(\"{}\", {})", fmt, names.join(", ")));
+        self.scopes.pop();
+        (format!("begin\n  {}\nend", parts.join(";\n  ")), allocs)
     }
 
     fn block_body(&mut self, n: usize, depth: u32) -> E {
@@ -717,6 +767,11 @@ impl<'r> Ctx<'r> {
                 let (s, x) = self.inner_stmt(depth, false);
                 out.push(Stmt { text: s, allocs: x, is_def: false });
             }
+            18 if self.cfg.f_blocks => {
+                let levels = 2 + self.rng.usize_below(2) as u32;
+                let (s, x) = self.shadow_stack(levels);
+                out.push(Stmt { text: s, allocs: x, is_def: false });
+            }
             _ => {
                 let (e, x) = self.int_expr(depth);
                 out.push(Stmt { text: e, allocs: x, is_def: false });
@@ -756,7 +811,12 @@ impl<'r> Ctx<'r> {
         let saved_scopes = std::mem::replace(&mut self.scopes, vec![scope]);
         let saved_in = std::mem::replace(&mut self.in_function, true);
         let ret = if self.rng.below(5) == 0 { Kind::Bool } else { Kind::Int };
-        let (body, allocs) = if self.cfg.f_blocks && self.rng.below(3) == 0 {
+        let (body, allocs) = if self.cfg.f_blocks && ret == Kind::Int && !params.is_empty() && self.rng.below(5) == 0 {
+            // parameters re-declared in nested blocks of the body
+            let names = params.clone();
+            let (stack, x) = self.shadow_level(&names, 2, false);
+            (format!("begin\n  {};\n  {}\nend", stack, params[0]), x)
+        } else if self.cfg.f_blocks && self.rng.below(3) == 0 {
             // block body with locals, a loop, and a final value
             self.scopes.push(Vec::new());
             let mut parts = Vec::new();
